@@ -1,6 +1,7 @@
 package verifsim
 
 import (
+	"encoding/json"
 	"fmt"
 	"reflect"
 	"sort"
@@ -383,4 +384,76 @@ func CopyMap(m map[string]any) map[string]any {
 		return nil
 	}
 	return DeepCopyAny(m).(map[string]any)
+}
+
+// LastAppliedAnnotation is metacontroller's record of the last desired state.
+const LastAppliedAnnotation = "metacontroller.k8s.io/last-applied-configuration"
+
+var refSysFields = []string{"selfLink", "uid", "resourceVersion", "generation", "creationTimestamp", "deletionTimestamp", "deletionGracePeriodSeconds"}
+
+// RefApplyUpdate is the reference for the object-level apply: three-way merge
+// of desired into observed using observed's last-applied record, system
+// metadata and status exactly as observed, last-applied record := desired.
+// ok=false means the reference cannot decide (clash, wild, unparsable record).
+func RefApplyUpdate(observed, desired map[string]any) (result map[string]any, ok bool, clash bool) {
+	var last map[string]any
+	om, _ := observed["metadata"].(map[string]any)
+	if ann, _ := om["annotations"].(map[string]any); ann != nil {
+		if s, _ := ann[LastAppliedAnnotation].(string); s != "" {
+			m, err := DecodeJSON([]byte(s))
+			if err != nil {
+				return nil, false, false
+			}
+			last = m
+		}
+	}
+	d := CopyMap(desired)
+	if dm, _ := d["metadata"].(map[string]any); dm != nil {
+		if ann, _ := dm["annotations"].(map[string]any); ann != nil {
+			delete(ann, LastAppliedAnnotation)
+		}
+	}
+	r := RefMerge(CopyMap(observed), last, CopyMap(d))
+	if r.Clash {
+		return nil, false, true
+	}
+	if r.Unspecified || r.WildUsed {
+		return nil, false, false
+	}
+	out, isMap := r.Value.(map[string]any)
+	if !isMap {
+		return nil, false, false
+	}
+	m, _ := out["metadata"].(map[string]any)
+	if m == nil {
+		m = map[string]any{}
+		out["metadata"] = m
+	}
+	for _, f := range refSysFields {
+		if v, has := om[f]; has {
+			m[f] = DeepCopyAny(v)
+		} else {
+			delete(m, f)
+		}
+	}
+	if v, has := observed["status"]; has {
+		out["status"] = DeepCopyAny(v)
+	} else {
+		delete(out, "status")
+	}
+	ann, _ := m["annotations"].(map[string]any)
+	if ann == nil {
+		ann = map[string]any{}
+		m["annotations"] = ann
+	}
+	b, _ := json.Marshal(d)
+	ann[LastAppliedAnnotation] = string(b)
+	return out, true, false
+}
+
+// JSONEqual compares two JSON-like values by their canonical encoding.
+func JSONEqual(a, b any) bool {
+	ab, _ := json.Marshal(a)
+	bb, _ := json.Marshal(b)
+	return string(ab) == string(bb)
 }
